@@ -910,7 +910,7 @@ def bounds_handoff(ctx, rid, fn):
         if not (isinstance(f, ast.Attribute) and is_name(f.value, selfn) and f.attr.startswith('add_constraint_')
                 and f.attr.endswith('_zero')):
             continue
-        arg = c.args[0] if c.args else None
+        arg = expand_names(fn.node, c.args[0]) if c.args else None
         b = kwarg(c, 'bounds')
         if b is None:
             ctx.inst(rid, fn, c, False, "nested constraint is called without the tracked bounds")
